@@ -336,6 +336,7 @@ pub fn write_replay(prop: &str, seed: u64, run: u64, case: &Case, v: &Violation,
 /// Worker process: runs r = k, k+J, k+2J, ... < N
 pub fn worker(prop: &dyn Prop, tier: Tier, seed: u64, k: u64, j: u64, want_digests: bool, runs_override: Option<u64>) {
     let known = load_known();
+    let survey = std::env::var("MLASIM_SURVEY").is_ok();
     let n = runs_override.unwrap_or_else(|| prop.runs(tier));
     let budget = std::time::Duration::from_secs(prop.budget_s(tier));
     let t0 = Instant::now();
@@ -343,6 +344,7 @@ pub fn worker(prop: &dyn Prop, tier: Tier, seed: u64, k: u64, j: u64, want_diges
     let out = std::io::stdout();
     let mut sigs: BTreeSet<u64> = BTreeSet::new();
     let mut unknown_found = 0;
+    let mut survey_map: BTreeMap<String, (String, u64)> = BTreeMap::new();
     let mut r = k;
     while r < n {
         if t0.elapsed() > budget {
@@ -395,6 +397,16 @@ pub fn worker(prop: &dyn Prop, tier: Tier, seed: u64, k: u64, j: u64, want_diges
                 *rep.known.entry(format!("{} [{}|{}]", kf.what, kf.clause, kf.class)).or_insert(0) += 1;
                 continue;
             }
+            if survey {
+                let key = format!("SURVEY {} | {}", v.clause, v.class);
+                if let Some((_, c)) = survey_map.get_mut(&key) {
+                    *c += 1;
+                } else {
+                    survey_map.insert(key, (format!("run {r}: {}", v.msg.chars().take(300).collect::<String>().replace('\n', " ")), 1u64));
+                }
+                // keep one example per class only
+                continue;
+            }
             // unknown violation: shrink, write replay, report
             let (small, sv, n_ev) = shrink_case(prop, &case, &v, tier, 300);
             rep.shrink_evals += n_ev;
@@ -416,6 +428,9 @@ pub fn worker(prop: &dyn Prop, tier: Tier, seed: u64, k: u64, j: u64, want_diges
             break;
         }
         r += j;
+    }
+    for (k2, (ex, c)) in survey_map {
+        rep.known.insert(format!("{k2} | {ex}"), c);
     }
     rep.sigs = sigs.into_iter().collect();
     let mut o = out.lock();
